@@ -75,6 +75,8 @@ CHECKS = {
             {"run": "^TestC04Completion$", "n": {"quick": 8000, "thorough": 40000}},
             # hundreds of builds in flight at once (sync and background): Gets served stale return at once, no lock remains
             {"run": "^TestC01ManyKeys$", "name": "C01ManyKeys-for-C04", "n": {"quick": 300, "thorough": 3000}},
+            # a background builder that ends its goroutine (runtime.Goexit) instead of returning
+            {"run": "^TestC04GoexitBuilder$", "n": {"quick": 500, "thorough": 5000}},
             # a Get ends in backend calls: after an aborted Walk / Dump / export every backend operation still completes
             # (real time, outside a bubble: a lock left behind blocks on a mutex, which a bubble cannot tell from slowness)
             {"run": "^TestC07AbortedWalk$", "name": "C07AbortedWalk-for-C04", "n": {"quick": 1500, "thorough": 15000}},
@@ -319,6 +321,8 @@ CHECKS = {
         "jobs": [
             {"run": "^TestC17Invalidator$", "n": {"quick": 15000, "thorough": 100000}},
             {"run": "^TestC17RealTime$", "n": {"quick": 40, "thorough": 150}, "shrinktime": "10s"},
+            # an accepted run that ends in a callback's panic still counts for the spacing
+            {"run": "^TestC17PanickingCallback$", "n": {"quick": 1000, "thorough": 10000}},
         ],
     },
     "C18": {
